@@ -17,6 +17,8 @@ import coqrun
 from framework import Exploration
 
 ASSUMPTIONS = ["A-VM",
+               "A-CHANGE-OWNER: the debug VM's ChangeOwnerAddress does not check its caller, so the permissions exploration issues it "
+               "from the chain owner only",
                "A-LIFECYCLE: init / upgrade are reachable only through deployment / upgrade transactions (protocol rule; "
                "the native debug VM would dispatch them as plain calls, so they are classified but not executed)",
                "A-SYSTEM-SC: ESDT system-contract calls (issue, set/unset special roles) are emulated or absent in the debug VM; "
@@ -202,6 +204,9 @@ def explore(tier, seed, model_ok=True, focus=False):
     # behavioural on-behalf exploration with a real permissions hub on farm / locked farm / farm-staking
     from props import behalf_common as bc
     ex = bc.merge(ex, bc.explore_behalf("C19", tier, seed, model_ok, focus, keys=bc.keys_c19))
+    # permissions / pausable modules over histories (effect of grant / revoke sequences; revoked keepers)
+    from props import perm_common as pc
+    ex = pc.merge(ex, pc.explore_perm("C19", tier, seed, model_ok, focus))
     return ex
 
 
@@ -211,6 +216,9 @@ def replay(data):
         import props.c14 as c14
         import sys_router as sr
         return [dict(key=k, what=w) for op, o in sr.replay_history(rp["cfg"], rp["ops"]) for k, w in c14.enable_swap_monitor(rp["cfg"], op, o)]
+    if rp.get("system") == "perm":
+        from props import perm_common as pc
+        return pc.replay_perm(data)
     if rp.get("system") == "behalf":
         from props import behalf_common as bc
         return bc.replay_behalf(data, bc.keys_c19)
